@@ -11,6 +11,7 @@ from __future__ import annotations
 
 import numpy as np
 
+from vp import build
 from vp import dataplane as dp
 from vp.core import Check
 from vp.project import enc_joint
@@ -137,6 +138,45 @@ def run(tier):
                                 prob["rows"], prob["cols"])
             cases.append(case)
             meta[cid] = dict(feat, relation="cross_check_keeps_left_map")
+    # ---- the command-line path: pandora.main derives the right interval itself when the user gives none -------------------------------
+    import json as _json
+    import shutil as _shutil
+    from vp.core import WORK
+    from vp.drivers import c19 as _c19
+    tmp = WORK / f"c08files-{chk.seed}-{tier}"
+    if tmp.exists():
+        _shutil.rmtree(tmp)
+    tmp.mkdir(parents=True)
+    for j in range(3 if tier == "quick" else 20):
+        a = int(rng.randint(-5, 1))
+        b = a + int(rng.randint(1, 4)) + (1 if a + 1 == -a else 0)        # never symmetric around 0
+        if a == -b:
+            b += 1
+        rows, cols = int(rng.randint(8, 12)), int(rng.randint(12, 18))
+        L = rng.randint(0, 200, size=(rows, cols)).astype(np.float32)
+        d = tmp / f"run{j}"
+        d.mkdir()
+        fl = build.write_tif(d / "left.tif", L)
+        fr = build.write_tif(d / "right.tif", np.roll(L, 1, axis=1))
+        user = {"input": {"left": {"img": fl, "disp": [a, b]}, "right": {"img": fr}},
+                "pipeline": {"matching_cost": {"matching_cost_method": ["sad", "census"][j % 2], "window_size": 3, "subpix": 1},
+                             "disparity": {"disparity_method": "wta", "invalid_disparity": -9999},
+                             "validation": {"validation_method": "cross_checking_accurate"}}}
+        cfg_path = str(d / "user.json")
+        _json.dump(user, open(cfg_path, "w"))
+        chk.count(("main_right_interval", a, b, j))
+        events, box, exc = _c19.traced_main(cfg_path, str(d / "out"))
+        if exc is not None:
+            chk.violation("total", dict(measure="main", exception=type(exc).__name__), {"interval": [a, b], "exception": repr(exc)[:300]}, f"pandora.main raised: {exc!r}")
+            continue
+        got = box.get("in_right_disp")
+        stored = None
+        if box.get("right") is not None and "disparity_interval" in box["right"]:
+            stored = [float(x) for x in box["right"]["disparity_interval"].data]
+        if got != [float(-b), float(-a)] or (stored is not None and stored != [float(-b), float(-a)]):
+            chk.violation("right_interval_is_negated_left", {"path": "pandora.main"}, {"left_interval": [a, b], "right_dataset_interval": got, "right_product_interval": stored},
+                          f"through pandora.main the right image is searched on {got} / {stored} instead of {[-b, -a]} (left interval {[a, b]})")
+    _shutil.rmtree(tmp, ignore_errors=True)
     verdicts = chk.tlc_cases("RelTrace", "RelTrace.cfg", cases, label="c08", chunk=60, parallel=12)
     for cid, v in verdicts.items():
         for clause in v["failed"]:
